@@ -111,6 +111,13 @@ inductive Op where
   `r.ReplaceAllString(name, replace)` for every row in order (regexp is external: computed by Go's regexp) -/
   | renameRe (ok : Bool) (names : List String)
   | setAlpha (alphabet : Int)
+  /-- `ReverseComplementSequences(names...)` -/
+  | revcompSeqs (names : List String)
+  | diffFirst            -- DiffWithFirst
+  | replaceMatch         -- ReplaceMatchChars
+  | mask (refseq : String) (start len : Int) (mr : MaskRep) (nogap noref : Bool)
+  /-- `MaskOccurences`; `MaskUnique(refseq, maskreplace)` is `maskOcc refseq 1 maskreplace` -/
+  | maskOcc (refseq : String) (maxOcc : Int) (mr : MaskRep)
 deriving Repr
 
 /-- the float threshold test of the cleaning functions: `cutoff = num/den` as `float64` -/
@@ -211,6 +218,27 @@ def stepOp (b : Bag) : Op → Bag × String
     if !ok then (b, "err" ++ mapStatus []) else
     let r := renameRegexp names b; (r.1, "ok" ++ mapStatus r.2)
   | .setAlpha a => let r := setAlphabet a b; (r.1, if r.2 then "err" else "ok")
+  | .revcompSeqs names => let r := reverseComplementSequences names b; (r.1, if r.2 then "err" else "ok")
+  | .diffFirst =>
+    if !b.isAlign then (b, "na") else
+    match diffWithFirstBag b with
+    | none => (b, "PANIC")
+    | some r => (r, "ok")
+  | .replaceMatch =>
+    if !b.isAlign then (b, "na") else
+    match replaceMatchCharsBag b with
+    | none => (b, "PANIC")
+    | some r => (r, "ok")
+  | .mask refseq start len mr nogap noref =>
+    if !b.isAlign then (b, "na") else
+    match maskBag refseq start len mr nogap noref b with
+    | none => (b, "PANIC")
+    | some r => (r.1, if r.2 then "err" else "ok")
+  | .maskOcc refseq maxOcc mr =>
+    if !b.isAlign then (b, "na") else
+    match maskOccBag refseq maxOcc mr b with
+    | none => (b, "PANIC")
+    | some r => (r.1, if r.2 then "err" else "ok")
 
 /-- run a history, collecting the states after every step -/
 def runOps : Bag → List Op → List (Bag × String)
